@@ -26,8 +26,8 @@ type rec struct {
 	ch        chan int
 	ctx       *hctx
 	prefill   []int
-	sendOK    bool  // result of the Send* helper
-	recvV     int   // result of the Recv* helper
+	sendOK    bool // result of the Send* helper
+	recvV     int  // result of the Recv* helper
 	recvOK    bool
 	done      bool  // the helper returned
 	peerGot   []int // values the peer received
